@@ -2,6 +2,9 @@
 // synchronisation between operations, while other threads mutate private copies of those vectors. Built with
 // ThreadSanitizer (g++ and clang++): the verdict is the absence of data-race reports with a cntgs:: frame.
 // The ledger and the object registry are not used here (they are not thread-safe); the allocator is a plain stateful one.
+#ifndef VF_NO_LIBCALL
+#error "the race engine must be built with VF_NO_LIBCALL (the ledger is not thread-safe)"
+#endif
 #include "vf/config.hpp"
 
 #include <atomic>
